@@ -153,6 +153,16 @@ func checkC02(c c02Case) *core.Failure {
 		return core.Failf("C02/run-failed", "%s\n%v", res.String(), c.W.Texts())
 	}
 	for pass := 0; pass < 2; pass++ {
+		if pass == 1 && !hugeSerial {
+			// gopki reads its own certificates back: an immediate default rerun changes nothing
+			snap := d.Clone()
+			time.Local = time.FixedZone("verif", c.TZ)
+			rn := core.Run(d, core.FlagDefault)
+			time.Local = oldLocal
+			if rn.Panic != "" || !rn.OK() || len(rn.Changes) != 0 || len(snap.Diff(d)) != 0 {
+				return core.Failf("C02/rerun-not-noop", "a second default run right after generation is not a no-op (gopki cannot live with its own output?): %s\n%v", rn.String(), c.W.Texts())
+			}
+		}
 		if pass == 1 {
 			// the certificates that replace these obey the same rules
 			time.Local = time.FixedZone("verif", c.TZ)
